@@ -2,7 +2,7 @@
    Model: Model/FS.v - every ReadFile / FindWithPrefixAndSuffix / WriteFile call has a number; a fault
    schedule maps call numbers to faults (error without effect; for writes also error after a prefix was
    written); a file that does not exist is a read RESULT, not a fault. *)
-From Gopar Require Import Model.Base Model.CRC Model.GoPath Model.FS Model.Par2 Model.Par1 Proofs.Par2Facts Proofs.Par2Faults Proofs.Par1Safety.
+From Gopar Require Import Model.Base Model.CRC Model.GoPath Model.FS Model.Par2 Model.Par1 Proofs.Par2Facts Proofs.Par2Faults Proofs.Par1Safety Proofs.RerunFacts.
 Open Scope N_scope.
 
 (* REPORTED: an operation that returns success was not hit by any scheduled fault, i.e. if any fault is hit
@@ -64,3 +64,26 @@ Theorem C18_par1_repair_untouched : forall md5 ix dbl fs sched q,
   ~ In q (written_paths (io_trace st')) -> fs_lookup (io_fs st') q = fs_lookup fs q.
 Proof. exact par1_repair_touches_only_written. Qed.
 Print Assumptions C18_par1_repair_untouched.
+
+(* RERUN of Repair after a fault in its loading phase (any read or the directory listing, any schedule): the
+   faulted run returns the error, has changed nothing, and the rerun without the fault is the fault-free run -
+   PAR2 and PAR1.  (A fault in the write-out phase: C18_repair_untouched and C18_repaired_completed say what
+   the state then is; that the rerun completes is decided by the check - see the recorded known finding on
+   in-place rewriting.) *)
+Theorem C18_repair_rerun_after_load_fault : forall md5 ix dbl fs sched e st1,
+  load_all md5 ix (io_init fs sched) = (Err e, st1) ->
+  let st' := snd (par2_repair md5 ix dbl (io_init fs sched)) in
+  fst (par2_repair md5 ix dbl (io_init fs sched)) = (Err e, []) /\
+  io_fs st' = fs /\
+  par2_repair md5 ix dbl (io_init (io_fs st') []) = par2_repair md5 ix dbl (io_init fs []).
+Proof. exact repair_rerun_after_load_fault. Qed.
+Print Assumptions C18_repair_rerun_after_load_fault.
+
+Theorem C18_par1_repair_rerun_after_load_fault : forall md5 ix dbl fs sched e st1,
+  p1_load md5 ix (io_init fs sched) = (Err e, st1) ->
+  let st' := snd (par1_repair md5 ix dbl (io_init fs sched)) in
+  fst (par1_repair md5 ix dbl (io_init fs sched)) = (Err e, []) /\
+  io_fs st' = fs /\
+  par1_repair md5 ix dbl (io_init (io_fs st') []) = par1_repair md5 ix dbl (io_init fs []).
+Proof. exact par1_repair_rerun_after_load_fault. Qed.
+Print Assumptions C18_par1_repair_rerun_after_load_fault.
